@@ -85,11 +85,18 @@ def schemata():
         S.append((part, ':- not &tel { a : q(X) }, d(X).', ':- not &tel { a : q(1) }.\n:- not &tel { a : q(2) }.'))
         S.append((part, 's :- not &tel { q(X) : q(3-X), d(X) }.', 's :- not &tel { (q(2) -> q(1)) & (q(1) -> q(2)) }.'))
         S.append((part, ':- not &tel { > q(X) : d(X) }.', ':- not &tel { (> q(1)) & (> q(2)) }.'))
+        # the same atom as element condition positively and default-negated in one program
+        S.append((part, 's :- not not &tel { a : q(X), d(X) }.\nu :- not not &tel { a : d(X), not q(X) }.',
+                  's :- not not &tel { (q(1) -> a) & (q(2) -> a) }.\nu :- not not &tel { (~ q(1) -> a) & (~ q(2) -> a) }.'))
+        S.append((part, 's :- not &tel { > a : q(X) ; a : not q(X), d(X) }.', 's :- not &tel { (q(1) -> > a) & (q(2) -> > a) & (~ q(1) -> a) & (~ q(2) -> a) }.'))
     for part in ('always', 'initial', 'dynamic'):
         rule(part, '&tel { > p(X) } :- q(X).')
         rule(part, '&tel { p(X) | > r(X) } :- q(X), not a.')
         rule(part, '&tel { X > p(X) } :- q(X).')
         rule(part, '&tel { p(X) >? r(3-X) } :- d(X), a.')
+        rule(part, '&tel { > (X > p(X)) } :- q(X).')
+        rule(part, '&tel { X > (> p(X)) | (X+1) >: r(X) } :- q(X).')
+        rule(part, '&tel { (X-1) > (X > p(X)) } :- d(X), not a.')
     return S
 
 
